@@ -61,8 +61,10 @@ def configs(tier):
         for ic in G.icfgs(tier):
             if cls == "constblk" and ic != G.icfgs(tier)[0]:
                 continue
+            nch = G.comb_chunks(cls, ic, tier)
             for io in (("int", "io") if tier == "thorough" else ("int",) if cls not in ("arith", "lhs", "constblk") else ("int", "io")):
-                cfgs.append((f"g.{cls}.{G.icfg_label(ic)}.{io}", "comb", cls, ic, io == "io"))
+                for ch in range(nch):
+                    cfgs.append((f"g.{cls}.{G.icfg_label(ic)}.{io}" + (f".p{ch}" if nch > 1 else ""), "comb", cls, ic, io == "io", ch))
     # sequential grammar programs
     for kind in G.SEQ_KINDS:
         for ic in G.seq_icfgs(kind, tier):
@@ -78,6 +80,9 @@ def configs(tier):
             cfgs.append((f"core.{n}", "core", n, True))
             if n in K.WITH_MEMORY:
                 cfgs.append((f"core.{n}.norst", "core", n, False))
+    for n, (base, _) in K.VARIANTS.items():
+        if K.CORPUS[base][2] == "quick" or tier == "thorough":
+            cfgs.append((f"core.{n}", "core", n, True))
     return cfgs
 
 
@@ -91,8 +96,8 @@ def run_config(cfg, seed, tier):
     raise MachineryError(f"unknown configuration kind {kind}")
 
 
-CAPS = {"quick": dict(seq=150_000, mem=150_000, core=40_000, walk=2_000),
-        "thorough": dict(seq=1_500_000, mem=1_000_000, core=400_000, walk=20_000)}
+CAPS = {"quick": dict(seq=200_000, mem=200_000, core=150_000, walk=5_000),
+        "thorough": dict(seq=2_000_000, mem=1_000_000, core=1_500_000, walk=50_000)}
 
 
 def product_program(cfg):
@@ -184,8 +189,8 @@ def _verilog_body(text, names=None):
 
 
 def run_comb(cfg, tier, only=None, only_inputs=None):
-    name, _, cls, ic, outs_io = cfg[:5]
-    mk, frags = G.comb_program(cls, ic, tier, outs_io, only=only)
+    name, _, cls, ic, outs_io, chunk = cfg[:6]
+    mk, frags = G.comb_program(cls, ic, tier, outs_io, only=only, chunk=chunk)
     res = dict(cfg=name, exhaustive=True, violations=[], evaluations=0, distinct=0, programs=1, disagreements=0,
                fragments=0, conformed=0)
     A = L.SideA(mk)
@@ -234,9 +239,22 @@ def run_comb(cfg, tier, only=None, only_inputs=None):
         return res
     # ---- classification ------------------------------------------------------------------------------------------
     clf = L.Classifier(mk)
+    fe = L.FragEval(A.mod)
+    frag_of = []
+    base_of = []
+    for k, (lab, sigs) in enumerate(A.mod.frag_obs):
+        base_of.append(len(frag_of))
+        frag_of += [(k, j) for j in range(len(sigs))]
     per = {}     # (fragment label, rule) -> [count, first example]
     for vals, (which, oa, ob) in fails.items():
-        rules = clf.classify([(vals, None)], which, oa, ob)
+        preS, preW, preL = {}, {}, {}
+        for k in sorted({frag_of[w][0] for w in which}):
+            s_ = fe.run(k, vals)
+            w_, left = fe.run_wrapped(k, vals)
+            base = base_of[k]
+            for j in range(len(s_)):
+                preS[base + j], preW[base + j], preL[base + j] = s_[j], w_[j], left
+        rules = clf.classify([(vals, None)], which, oa, ob, pre=(preS, preW, preL))
         res["disagreements"] += len(which)
         for w, rule in rules.items():
             lab = obs[w][0].rsplit("#", 1)[0]
@@ -291,4 +309,18 @@ def replay(rec):
         obsV, _ = L.run_trace_B(B, [(vals, None)])
         return dict(cfg=name, rule=rec["rule"], fragment=d["fragment"], inputs=d["inputs"], reproduced=obsS != obsV,
                     simulator=obsS, verilog=obsV, emitted=_verilog_body(B.text))
-    return dict(reproduced=False)
+    # product configurations: replay the recorded trace from reset on LiteX's real Evaluator and on vlog
+    d = rec["detail"]
+    trace = [(tuple(v), tuple(c) if c else None) for v, c in d["raw_trace"]]
+    mk = product_program(cfg)
+    real = L.RealA(mk)
+    obsS, memS = real.run(trace)
+    B = L.SideB(mk)
+    obsV, memV = L.run_trace_B(B, trace)
+    diff = {n: (a, b) for n, a, b in zip(B.obs_names, obsS, obsV) if a != b}
+    for k, (x, y) in enumerate(zip(memS, memV)):
+        for a in range(len(x)):
+            if x[a] != y[a]:
+                diff[f"mem{k}[{a}]"] = (x[a], y[a])
+    return dict(cfg=name, rule=rec["rule"], signal=d["signal"], steps=len(trace), reproduced=d["signal"] in diff,
+                differing_simulator_vs_verilog=dict(list(diff.items())[:12]))
